@@ -574,8 +574,22 @@ pub fn run(tier: &str, replay: Option<&str>) -> i32 {
         per.nontrivial += p["nontrivial"].as_u64().unwrap_or(0);
         rep.report_bag(&p["violations"]);
     }
+    // server-level slice: the real binary killed before each of its file-system calls (srvmc C01S)
+    let mut srv_points = 0u64;
+    match run_server_slice(tier) {
+        Ok(v) => {
+            srv_points = v["crash_points"].as_u64().unwrap_or(0) + v["kill_in_recovery_points"].as_u64().unwrap_or(0);
+            rep.report_bag(&v["violations"]);
+            ev.set("server_slice", json!({"crash_points_of_the_real_binary": v["crash_points"], "kill_in_recovery_points": v["kill_in_recovery_points"], "launches": v["launches"], "killed_before": v["killed_at"], "variants": v["variants"],
+                "rule": "the REAL server binary (srvmc re-executed as kyrodb_server's main()) runs under kvshim's kill mode on an EMPTY directory while a client drives insert, insert, delete, insert, metadata update, overwrite, overwrite over gRPC (snapshot every 2 mutations, 300-byte rotation): for n = 1, 2, ... until a run survives the whole history the process dies right before its n-th file-system call under the data directory (and, in a second pass, after writing half of it when that call is a write); the real binary is then started normally on what is left: it must start and serve the acknowledged operations, optionally followed by the one in flight; it is also killed during that start-up before its k-th call for every k (quick: at the crash points of the first start-up and every third later one), and the start-up after that must serve the same collection"}));
+        }
+        Err(e) => {
+            eprintln!("C01: machinery error in the server-level slice: {e}");
+            return 2;
+        }
+    }
     let depth: usize = std::env::var("C01_DEPTH").ok().and_then(|s| s.parse().ok()).unwrap_or(if tier == "thorough" { 4 } else { 3 });
-    ev.set("evaluations", tot["crash_states"] + per.crash_states);
+    ev.set("evaluations", tot["crash_states"] + per.crash_states + srv_points);
     ev.set("distinct_nontrivial", tot["nontrivial"] + per.nontrivial);
     ev.set("rule", format!("for every configuration and every history h.o of length <= {depth} over the 9-letter alphabet (plus the first open), o is recorded through kvshim and every crash state is recovered by the real engine: kill after each effect prefix, every torn prefix of the next write (all lengths <= 300 B, boundary lengths above), every power-loss combination of per-file / per-directory unsynced prefixes (cap 512 per point), and, for histories up to the nested depth, a crash at every effect boundary inside the recovery itself; non-trivial = kill points whose recovered outcome differs from the outcome at the previous kill point of the same operation"));
     ev.set("samples", Value::Array(samples));
@@ -591,7 +605,7 @@ pub fn run(tier: &str, replay: Option<&str>) -> i32 {
     ev.set("periodic_policy", json!({"cases": per.cases, "crash_states": per.crash_states, "recoveries": per.recoveries}));
     ev.set("configurations", grid(tier).iter().map(|c| c.label()).collect::<Vec<_>>());
     ev.assume("power-loss model as the property defines it: per file, effects since its last fsync/fdatasync may be lost as an ordered suffix; directory entry changes since the last directory fsync likewise; different files independently");
-    ev.assume("the server's start-up decision (MANIFEST present => strict recover, else fresh start) is replicated by vcore::exec::BackendCfg::start");
+    ev.assume("engine level: the server's start-up decision (MANIFEST present, or snapshot / non-empty WAL segment present => strict recover, else fresh start) is replicated by vcore::exec::BackendCfg::start; the server-level slice exercises main()'s own decision on kill states (no power-loss states there)");
     ev.assume("kvshim interposes open/write/fsync/fdatasync/ftruncate/rename/unlink; the engine issues no other mutating call under the data directory");
     ev.violations = rep.violations as i64;
     ev.write();
@@ -602,9 +616,36 @@ pub fn run(tier: &str, replay: Option<&str>) -> i32 {
     rep.finish()
 }
 
+fn run_server_slice(tier: &str) -> Result<Value, String> {
+    let bin = std::env::var("SRVMC_BIN").map_err(|_| "SRVMC_BIN not set (run through bin/check)".to_string())?;
+    let out = vcore::par::output_retry(std::process::Command::new(&bin).arg("C01S").arg(tier)).map_err(|e| format!("cannot run {bin}: {e}"))?;
+    let stdout = String::from_utf8_lossy(&out.stdout);
+    let line = stdout.lines().find_map(|l| l.strip_prefix("C01S-RESULT ")).ok_or_else(|| format!("no result line; exit {:?}; stderr: {}", out.status.code(), String::from_utf8_lossy(&out.stderr)))?;
+    serde_json::from_str(line).map_err(|e| format!("bad result: {e}"))
+}
+
 fn run_replay(path: &str) -> i32 {
     let v: Value = serde_json::from_str(&std::fs::read_to_string(path).expect("read")).expect("json");
     let case = &v["case"];
+    if case["check"] == "C01S" {
+        let sig = v["signature"].as_str().unwrap_or("").to_string();
+        return match run_server_slice("thorough") {
+            Ok(r) => {
+                if r["violations"].as_array().map(|a| a.iter().any(|x| x["sig"] == sig.as_str())).unwrap_or(false) {
+                    println!("replay: reproduced {sig}");
+                    println!("VIOLATION property=C01 replay={path}");
+                    1
+                } else {
+                    println!("replay: no violation with signature {sig}");
+                    0
+                }
+            }
+            Err(e) => {
+                eprintln!("machinery error: {e}");
+                2
+            }
+        };
+    }
     let cfg: BackendCfg = serde_json::from_value(case["cfg"].clone()).unwrap();
     let h: Vec<Op> = serde_json::from_value(case["history"].clone()).unwrap();
     let o: Option<Op> = serde_json::from_value(case["recorded_op"].clone()).unwrap();
